@@ -22,6 +22,8 @@ pub struct ExpOutput {
     pub lovelace: i128,
     pub assets: Assets,
     pub datum: Option<PData>,
+    /// (language, script bytes) of the reference script a `cardano::publish` output carries
+    pub script_ref: Option<(u8, Vec<u8>)>,
 }
 
 #[derive(Debug, Clone, PartialEq)]
@@ -45,6 +47,10 @@ pub struct Expected {
     /// reward account (29 bytes: header + credential) -> lovelace
     pub withdrawals: BTreeMap<Vec<u8>, i128>,
     pub donation: Option<i128>,
+    /// the data of the spend (tag 0) and reward (tag 3) redeemers the template writes, as a sorted multiset (which
+    /// item each guards is C08's question); `mint_redeemers_written` = some mint / burn block carries one
+    pub redeemers: Vec<(u64, String)>,
+    pub mint_redeemers_written: bool,
     pub fee: u64,
     pub network: u8,
 }
@@ -427,8 +433,11 @@ fn denote_inner(ev: &Ev) -> R<Expected> {
             }
         }
     }
-    for o in &p.outputs {
-        let v = ev.asset(&o.amount)?;
+    // regular outputs in source order, then one output per `cardano::publish` block
+    let regular = p.outputs.iter().map(|o| (&o.to, &o.amount, &o.datum, o.optional, None));
+    let published = p.publishes.iter().map(|b| (&b.to, &b.amount, &b.datum, false, Some((b.version, b.script.clone()))));
+    for (to, amount, datum, optional, script_ref) in regular.chain(published) {
+        let v = ev.asset(amount)?;
         let mut lovelace = 0i128;
         let mut assets = Assets::new();
         for ((pol, name), n) in v {
@@ -449,14 +458,14 @@ fn denote_inner(ev: &Ev) -> R<Expected> {
         if lovelace > u64::MAX as i128 {
             return Err(Denotation::MustFail("lovelace beyond 64 bits".into()));
         }
-        if o.optional && lovelace == 0 && assets.is_empty() {
+        if optional && lovelace == 0 && assets.is_empty() {
             continue;
         }
-        let datum = match &o.datum {
+        let datum = match datum {
             Some(d) => Some(ev.data(d)?),
             None => None,
         };
-        x.outputs.push(ExpOutput { address: ev.addr(&o.to)?, lovelace, assets, datum });
+        x.outputs.push(ExpOutput { address: ev.addr(to)?, lovelace, assets, datum, script_ref });
     }
     for (list, sign) in [(&p.mints, 1i128), (&p.burns, -1i128)] {
         for m in list.iter() {
@@ -496,6 +505,22 @@ fn denote_inner(ev: &Ev) -> R<Expected> {
             SignerE::Hash(h) => h.clone(),
         });
     }
+    for i in &p.inputs {
+        if let Some(r) = &i.redeemer {
+            let d = ev.data(r)?;
+            let n = ev.utxos.get(&i.name.to_lowercase()).map(|u| u.len()).unwrap_or(0);
+            for _ in 0..n {
+                x.redeemers.push((0, d.to_string()));
+            }
+        }
+    }
+    if !p.withdrawal_no_redeemer {
+        for _ in &p.withdrawals {
+            x.redeemers.push((3, PData::Constr(0, vec![]).to_string()));
+        }
+    }
+    x.redeemers.sort();
+    x.mint_redeemers_written = p.mints.iter().chain(p.burns.iter()).any(|m| !m.no_redeemer);
     for (_, r) in &p.references {
         if ev.rf(r).1 > u32::MAX as u64 {
             return Err(Denotation::MustFail("reference output index beyond 32 bits".into()));
